@@ -32,6 +32,7 @@ Fixpoint stable (t : ty) : bool :=
       match args with
       | [] => match origin with Some ot => stable ot | None => true end
       | [a] => match origin with Some (TPrim p) => seq_prim p ell && stable a | _ => false end
+      | [kt; vt] => match origin with Some (TPrim TDict) => stable kt && stable vt | _ => false end
       | _ => false
       end
   end.
@@ -48,11 +49,16 @@ Fixpoint typed (t : ty) (w : pyval) {struct t} : bool :=
   | TRule origin args ell _ _ _ _ =>
       match args with
       | [] => match origin with Some ot => typed ot w | None => true end
-      | a :: _ => match origin with
-                  | Some (TPrim p) =>
-                      prim_exact p w && match items_of w with Some xs => forallb (typed a) xs | None => false end
-                  | _ => false
-                  end
+      | [a] => match origin with
+               | Some (TPrim p) =>
+                   prim_exact p w && match items_of w with Some xs => forallb (typed a) xs | None => false end
+               | _ => false
+               end
+      | [kt; vt] => match origin, w with
+                    | Some (TPrim TDict), PDict kvs => forallb (fun kv => typed kt (fst kv) && typed vt (snd kv)) kvs
+                    | _, _ => false
+                    end
+      | _ => false
       end
   end.
 
@@ -67,7 +73,12 @@ Fixpoint ints_exact (t : ty) (w : pyval) {struct t} : bool :=
   | TRule origin args _ _ _ _ _ =>
       match args with
       | [] => match origin with Some ot => ints_exact ot w | None => true end
-      | a :: _ => match items_of w with Some xs => forallb (ints_exact a) xs | None => true end
+      | [a] => match items_of w with Some xs => forallb (ints_exact a) xs | None => true end
+      | [kt; vt] => match w with
+                    | PDict kvs => forallb (fun kv => ints_exact kt (fst kv) && ints_exact vt (snd kv)) kvs
+                    | _ => true
+                    end
+      | _ => true
       end
   | _ => true
   end.
